@@ -28,14 +28,10 @@ From QV Require Import File.StrictSyntax File.ReadStrict Lin.Parts.
 
 Definition lt_flag (b : bool) (u : ouser) : list ouser := if b then [u] else [].
 
-Definition lin_parts_tie (file : list N) : option (list (N * N * N) * N) :=
-  let r := lin_check file in
-  match read_strict file, ar_tables r, ar_params r with
-  | RsOk sf, Some (hp, hs, _), [L; h0; h1; pO; E; Np; T] =>
+(* users of an object (container) of a real output: (users_of, outlines_in_first_page) *)
+Definition lt_users (sf : sfile) (pages : list N) (fuel : nat) : (N -> list ouser) * bool :=
       let objs := sf_objs sf in
-      let fuel := length file in
       let cont := fun l => af_dedup (map (af_container objs) l) in
-      let pages := ar_pages r in
       let root := match dict_get (sf_trailer sf) n_Root with Some (SpRef x _) => x | _ => 0 end in
       let catd := match af_find objs root with Some c => match so_val c with SpDict d => d | _ => [] end | None => [] end in
       let thumb_raw := map (fun p => match af_find objs p with
@@ -88,6 +84,14 @@ Definition lin_parts_tie (file : list N) : option (list (N * N * N) * N) :=
         flat_map (fun x => lt_flag (af_mem c (snd x)) (OuThumb (fst x))) (indexed thumb_sets) ++
         flat_map (fun x => lt_flag (af_mem c (snd x)) (OuRootKey (fst x))) root_sets ++
         flat_map (fun x => lt_flag (af_mem c (snd x)) (OuTrailerKey (fst x))) trailer_sets in
+      (users_of, use_outl).
+
+Definition lin_parts_tie (file : list N) : option (list (N * N * N) * N) :=
+  let r := lin_check file in
+  match read_strict file, ar_tables r, ar_params r with
+  | RsOk sf, Some (hp, hs, _), [L; h0; h1; pO; E; Np; T] =>
+      let objs := sf_objs sf in
+      let '(users_of, use_outl) := lt_users sf (ar_pages r) (length file) in
       (* regions of the file *)
       let lens := map (fun e => hp_min_length hp + pe_length_delta e) (hp_entries hp) in
       let end7 := E + af_sum (tl lens) in
@@ -106,4 +110,31 @@ Definition lin_parts_tie (file : list N) : option (list (N * N * N) * N) :=
           end) objs in
       Some (diffs, N.of_nat (length objs))
   | _, _, _ => None
+  end.
+
+(* ---- shared-identifier tie: the object-to-users map of a real output (uncompressed objects in ascending object number =
+   the order in which the writer numbered the parts) -> MODEL of the last loop of calculateLinearizationData
+   (Lin/SharedIds.v) -> per page the identifiers, compared as sorted lists with the identifiers decoded from the file's
+   page offset hint table (the C++ pushes them in the order of the INPUT's object numbers, which the output does not
+   show). Returns (page index, model identifiers, file identifiers) for every page that differs. ---- *)
+From QV Require Import Lin.SharedIds.
+
+Fixpoint lt_insert (x : N) (l : list N) : list N :=
+  match l with [] => [x] | y :: t => if x <=? y then x :: l else y :: lt_insert x t end.
+Definition lt_sort (l : list N) : list N := fold_left (fun acc x => lt_insert x acc) l [].
+
+Definition lin_shared_tie (file : list N) : option (list (N * list N * list N) * N) :=
+  let r := lin_check file in
+  match read_strict file, ar_tables r with
+  | RsOk sf, Some (hp, hs, _) =>
+      let objs := sf_objs sf in
+      let '(users_of, use_outl) := lt_users sf (ar_pages r) (length file) in
+      let nums := lt_sort (flat_map (fun o => match af_off o with Some _ => [so_num o] | None => [] end) objs) in
+      let um := flat_map (fun n => match users_of n with [] => [] | us => [(n, us)] end) nums in
+      let model := lsi_all_ids use_outl um (length (ar_pages r)) in
+      let found := map (fun e => pe_identifiers e) (hp_entries hp) in
+      let diffs := flat_map (fun x => match x with (i, (m, f)) => if list_eqb N.eqb (lt_sort m) (lt_sort f) then [] else [(i, lt_sort m, lt_sort f)] end)
+                            (combine (map N.of_nat (seq 0 (length model))) (combine model found)) in
+      Some (diffs, N.of_nat (length model))
+  | _, _ => None
   end.
